@@ -427,14 +427,11 @@ fn convert_components_to_contours(context: &Context, original: &Glyph) -> Result
     let mut simple = GlyphBuilder::from(original.clone());
     simple.clear_components();
 
-    // Note that here we care about the entire component transform
-    let mut visited: HashSet<(NormalizedLocation, HashableComponent)> = HashSet::new();
+    // Every queue entry is one instantiation of a component: the same glyph reached twice with
+    // the same transform (e.g. through two identical components of a nested composite) is drawn twice.
     while let Some((loc, component)) = frontier.pop_front() {
         let component_base = component.base.clone();
         let component_affine = component.affine();
-        if !visited.insert((loc.clone(), component)) {
-            continue;
-        }
 
         let Some(referenced_glyph) = context.try_get_glyph(component_base.clone()) else {
             log::warn!(
